@@ -1,15 +1,15 @@
 package props
 
 import (
-	"time"
-	"sort"
-	"path/filepath"
-	"os"
 	"context"
 	"errors"
 	"fmt"
 	"io"
+	"os"
+	"path/filepath"
+	"sort"
 	"strings"
+	"time"
 
 	"github.com/go-task/task/v3/internal/logger"
 	"github.com/go-task/task/v3/internal/output"
